@@ -199,9 +199,19 @@ def test_state(rep, st, tier, rng):
                     grid.setCurrentArea(np.zeros(D), np.ones(D), lv)
                     R = op.build_R_matrix(lv)
                     b = np.asarray(op.calculate_B(data, lv), dtype=float)
+                    # the same operation object is asked for the same grid again (a combination repeated with another level range assembles the
+                    # grids it shares with the first run a second time): nothing may have been changed by the first assembly
+                    R_first, b_first = np.array(R, dtype=float, copy=True), np.array(b, dtype=float, copy=True)
+                    R_again = np.asarray(op.build_R_matrix(lv), dtype=float)
+                    b_again = np.asarray(op.calculate_B(data, lv), dtype=float)
             except Exception as ex:
                 fail('C16_NoException', 'uniform-grid assembly raised %r' % ex, exception=repr(ex), sig={'exception': type(ex).__name__, 'uniform': True})
                 continue
+            if R_again.shape != R_first.shape or not np.allclose(R_again, R_first, rtol=1e-13, atol=1e-16) or not np.allclose(np.asarray(R, dtype=float), R_first, rtol=0, atol=0):
+                fail('C16_MatrixIsGramPlusLambda', 'the second assembly of the same grid on the same operation object differs from the first (or changed the matrix handed out first)',
+                     sig={'lumping': lump, 'uniform': True, 'second_assembly': True})
+            if b_again.shape != b_first.shape or not np.allclose(b_again, b_first, rtol=1e-13, atol=1e-16):
+                fail('C16_RhsIsSampleMean', 'the second right-hand side of the same grid on the same operation object differs from the first', sig={'uniform': True, 'second_assembly': True})
             rep.count(1, key='uniform' + json.dumps(case) + str((lam, lump)))
             if lump:
                 if not (np.isscalar(R) or np.ndim(R) == 0) or not (abs(float(R) - G[0, 0]) <= 1e-14 or abs(float(R) - G[0, 0] - lam) <= 1e-14):
